@@ -771,10 +771,28 @@ class Gen:
         n = rng.choice((18, 24, 33, 40, 129, 130, 140, 160, 200, 257) if self.tier == "thorough" else (18, 24, 33, 129, 130, 136, 150, 180))
         kind = rng.choice(self.cfg["classes"])
         yield dict(k="bulk", dst=s, cls=kind, n=n, seed=rng.randrange(2 ** 31),
-                   base=rng.choice((0, -50, 1000)), stride=rng.choice((1, 1, 3)), els=sorted(set(self.cfg["elements"]))[:3])
+                   base=rng.choice((0, -50, 1000)), stride=rng.choice((1, 1, 3)), els=sorted(set(self.cfg["elements"]))[:3],
+                   style=rng.choice(("atom", "atom", "mixed", "bond", "none")))
         sl = self.w.graph(s)
         if sl is None:
             return
+        if kind in ("SMG", "SCRG") and rng.random() < 0.4 and self.room():
+            # answer first, mirror, then answer again / persist the mirror image
+            yield dict(k="q", s=s, q="hash")
+            e = self.slot_id()
+            yield dict(k="enantiomer", src=s, dst=e)
+            if self.w.graph(e) is not None:
+                yield dict(k="q", s=e, q="hash")
+                yield dict(k="probe_twin", s=e, seed=rng.randrange(2 ** 31), route="fresh")
+                if len(self.w.slots) + 2 <= self.w.max_slots and self.cfg["tx"].get("persist", 0) > 0:
+                    t, d1 = self.slot_id(), self.slot_id()
+                    yield dict(k="serialize", src=e, dst=t, reencode=None)
+                    yield dict(k="deserialize", src=t, dst=d1)
+                    for x in (t, d1):
+                        if x in self.w.slots:
+                            yield dict(k="drop", s=x)
+                if e in self.w.slots and not self.w.slots[e].locks:
+                    yield dict(k="drop", s=e)
         for _ in range(rng.randint(1, 4)):
             sl = self.w.graph(s)
             if sl is None:
